@@ -11,7 +11,7 @@
     reloadManagedCertificate appear in a history.  [wf_dop] only asks that the certificates an
     operation carries have the names of their hash and a non-empty hash.  [dinit cap] is the empty
     cache created with capacity [cap]; the capacity in force after a history is [d_cap]. *)
-From CM Require Import Lib.Str Gen.Consts Cache.Model Cache.AMapFacts Cache.Proofs Cache.Check Cache.SpecProofs Cache.Sched.
+From CM Require Import Lib.Str Gen.Consts Cache.Model Cache.AMapFacts Cache.Proofs Cache.Check Cache.SpecProofs Cache.Sched Cache.Final.
 From Coq Require Import Arith.
 Open Scope nat_scope.
 
@@ -322,3 +322,129 @@ Example C12_stale_writeback_keeps_tags :
   map (fun c => (c_tags c, c_ocsp c)) (map snd (cache (write_back_whole_copy ex_stale s2))) = [([[116]], 7%Z)]%N /\
   map (fun c => (c_tags c, c_ocsp c)) (map snd (cache (write_back ex_stale s2))) = [([[116]; [117]], 7%Z)]%N.
 Proof. vm_compute. repeat split. Qed.
+
+(** ================= final round: value semantics of the index lists, replace-by-itself, SetOptions
+    from unlimited ================= *)
+
+(** adding a certificate appends its hash to the list of each of its names (once per occurrence)
+    and changes NO other list; re-adding a cached certificate changes no list at all.  (The Go code
+    appends to one slice per name; the lists of a multi-SAN certificate share nothing.) *)
+Theorem C12_add_changes_only_own_lists : forall cap c v s n,
+  idx (add_cert cap c v s) n =
+  match alookup (c_hash c) (cache s) with
+  | Some _ => idx s n
+  | None => idx (before_insert cap c v s) n ++ repeat (c_hash c) (count_str n (c_names c))
+  end.
+Proof. exact add_changes_only_own_lists. Qed.
+Print Assumptions C12_add_changes_only_own_lists.
+
+Theorem C12_add_leaves_other_names : forall cap c v s n,
+  ~ In n (c_names c) -> idx (add_cert cap c v s) n = idx (before_insert cap c v s) n.
+Proof. exact add_leaves_other_names. Qed.
+Print Assumptions C12_add_leaves_other_names.
+
+(** removing a certificate filters its hash out of the lists of its own names; every other list,
+    and every other hash in those lists, stays *)
+Theorem C12_remove_changes_only_own_lists : forall c s n,
+  idx (remove_cert c s) n =
+  if mem_str n (c_names c) then filter (fun h => negb (str_eqb h (c_hash c))) (idx s n) else idx s n.
+Proof. exact remove_changes_only_own_lists. Qed.
+Print Assumptions C12_remove_changes_only_own_lists.
+
+(** no aliasing: removing another certificate -- whatever names it shares with [c] -- leaves the
+    mentions of [c] under every name untouched *)
+Theorem C12_lists_of_a_multi_san_certificate_are_independent : forall c other s b,
+  c_hash other <> c_hash c ->
+  count_str (c_hash c) (idx (remove_cert other s) b) = count_str (c_hash c) (idx s b).
+Proof. exact lists_of_a_multi_san_certificate_are_independent. Qed.
+Print Assumptions C12_lists_of_a_multi_san_certificate_are_independent.
+
+(** replacing a cached certificate by (a new copy of) itself keeps it: cached as the new copy says,
+    listed exactly as before under every name, nothing else touched, nothing evicted *)
+Theorem C12_replace_by_itself_keeps : forall names_of cap c c' v s,
+  Inv names_of cap s -> wf_cert names_of c' -> c_hash c = c_hash c' -> wf_copy names_of c ->
+  alookup (c_hash c') (cache s) <> None ->
+  let s' := replace_cert cap c c' v s in
+  Inv names_of cap s' /\
+  alookup (c_hash c') (cache s') = Some c' /\
+  (forall h, h <> c_hash c' -> alookup h (cache s') = alookup h (cache s)) /\
+  (forall n h, count_str h (idx s' n) = count_str h (idx s n)).
+Proof. exact replace_by_itself_keeps. Qed.
+Print Assumptions C12_replace_by_itself_keeps.
+
+(** SetOptions from "unlimited" to a limit trims at once *)
+Theorem C12_set_options_from_unlimited_trims : forall names_of n vs d,
+  DInv names_of d -> d_cap d = 0 -> 0 < n ->
+  let d' := set_capacity (Z.of_nat n) vs d in
+  DInv names_of d' /\ d_cap d' = n /\
+  length (cache (d_st d')) = Nat.min (length (cache (d_st d))) n /\
+  length (cache (d_st d')) <= n /\
+  (forall h c, alookup h (cache (d_st d')) = Some c -> alookup h (cache (d_st d)) = Some c).
+Proof. exact set_options_from_unlimited_trims. Qed.
+Print Assumptions C12_set_options_from_unlimited_trims.
+
+(** monitor soundness, the whole verdict: on the case the model produces for ANY history of
+    well-formed operations (incl. SetOptions, queries, scans, Stop) [check_line]'s code is 0 -- the
+    replay agrees (states after every step, the capacity SetOptions leaves, query answers, scan
+    views, final queries) and every clause of [spec_ok] holds (invariant with the capacity in force
+    at each step; add / re-add / replace / removal / write-back / SetOptions / query / Stop / scan
+    clauses; final AllMatchingCertificates) *)
+Theorem C12_check_of_model : forall cap pool ops queries,
+  Forall (wf_dop (names_of_pool (case_certs_of pool ops))) ops ->
+  Lib.Wire.code (model_agrees (model_case cap pool ops queries)) (spec_ok (model_case cap pool ops queries)) = 0%Z.
+Proof. exact check_of_model. Qed.
+Print Assumptions C12_check_of_model.
+
+(** removal by hash removes exactly the listed hashes *)
+Theorem C12_remove_exact : forall names_of cap hs s k,
+  Inv names_of cap s ->
+  alookup k (cache (remove_hashes hs s)) = if mem_str k hs then None else alookup k (cache s).
+Proof. exact remove_exact. Qed.
+Print Assumptions C12_remove_exact.
+
+(** removal by subject removes exactly the managed certificates listing a subject exactly, of the
+    given issuer if one is given *)
+Theorem C12_remove_managed_exact : forall names_of cap sj s k c,
+  Inv names_of cap s -> alookup k (cache s) = Some c ->
+  alookup k (cache (remove_managed sj s)) =
+  if c_managed c && existsb (fun p => mem_str (fst p) (c_names c) && (is_nil (snd p) || str_eqb (c_issuer c) (snd p))) sj
+  then None else Some c.
+Proof. exact remove_managed_exact. Qed.
+Print Assumptions C12_remove_managed_exact.
+
+(** replacing on renewal: the new certificate is cached, the old one gone (unless the same) *)
+Theorem C12_replace_effect : forall names_of cap old new v s,
+  Inv names_of cap s -> wf_copy names_of old -> wf_cert names_of new ->
+  let s' := replace_cert cap old new v s in
+  Inv names_of cap s' /\ amem (c_hash new) (cache s') = true /\
+  (c_hash old <> c_hash new -> amem (c_hash old) (cache s') = false).
+Proof. exact replace_effect. Qed.
+Print Assumptions C12_replace_effect.
+
+Example C12_final_hypotheses_satisfiable :
+  let s2 := run 0 init [OAdd ex_c1 None; OAdd ex_c2 None] in         (* unlimited, h1 (a, b) and h2 (a) *)
+  let c1' := set_tags ex_c1 [[118]%N] in                              (* a new copy of h1, other tags *)
+  Inv ex_names_of 0 s2 /\ wf_cert ex_names_of c1' /\ wf_copy ex_names_of ex_c1 /\
+  alookup (c_hash c1') (cache s2) <> None /\
+  (* replaced by itself: still cached (with the new copy's tags), lists as before *)
+  map (fun kv => (fst kv, c_tags (snd kv))) (cache (replace_cert 0 ex_c1 c1' None s2)) =
+    [([104; 50], []); ([104; 49], [[118]])]%N /\
+  idx (replace_cert 0 ex_c1 c1' None s2) [98]%N = [[104; 49]%N] /\
+  (* removing h2 (which shares the name a with h1) leaves h1 listed under a and b *)
+  idx (remove_cert ex_c2 s2) [97]%N = [[104; 49]%N] /\ idx (remove_cert ex_c2 s2) [98]%N = [[104; 49]%N] /\
+  (* RemoveManaged("a", any issuer) removes the managed h1 and keeps the unmanaged h2; Remove([h2, zz]) removes h2 *)
+  akeys (cache (remove_managed [([97]%N, [])] s2)) = [[104; 50]%N] /\
+  akeys (cache (remove_hashes [[104; 50]; [122; 122]]%N s2)) = [[104; 49]%N] /\
+  (* unlimited -> limit 1: one certificate is evicted at once *)
+  DInv ex_names_of (DSt 0 s2) /\
+  length (cache (d_st (set_capacity 1%Z [[104; 50]%N] (DSt 0 s2)))) = 1.
+Proof.
+  assert (HI : Inv ex_names_of 0 (run 0 init [OAdd ex_c1 None; OAdd ex_c2 None])).
+  { apply run_inv; [apply inv_init|]. repeat constructor; cbn; try discriminate; reflexivity. }
+  cbv zeta. split; [exact HI|]. split; [split; [reflexivity | discriminate]|].
+  split; [left; reflexivity|]. split; [vm_compute; discriminate|].
+  split; [vm_compute; reflexivity|]. split; [vm_compute; reflexivity|].
+  split; [vm_compute; reflexivity|]. split; [vm_compute; reflexivity|].
+  split; [vm_compute; reflexivity|]. split; [vm_compute; reflexivity|].
+  split; [exact HI | vm_compute; reflexivity].
+Qed.
